@@ -36,9 +36,9 @@ REQUIRED_COUNTERS = ["documents", "processes", "outputs.compared", "numbered_cla
 def plan(tier):
     if tier == "quick":
         return {"shards": 8, "docs": 10, "seeds": ["0", "1", "2", "3", "4242", "random"], "cli": 1,
-                "timeout": 300}
+                "timeout": 900}
     return {"shards": 16, "docs": 200, "seeds": [str(n) for n in range(22)] + ["random", "random"], "cli": 6,
-            "timeout": 3000}
+            "timeout": 7200}
 
 
 def aimed_doc(rng, serial):
